@@ -26,9 +26,11 @@ import asyncio
 import http.cookiejar
 import io
 import json
+import logging
 import os
 import sys
 import tempfile
+import time
 import traceback
 import weakref
 
@@ -144,11 +146,15 @@ class HTTPPool:
 
     @asyncio.coroutine
     def acquire(self, host, port, use_ssl=False, host_key=None):
+        # the precondition of the real ConnectionPool.acquire (network/pool.py), kept so that a request
+        # for a URL without host / port fails here exactly as it does there
+        assert isinstance(port, int), 'Expect int. Got {}'.format(type(port))
         yield from asyncio.sleep(0)
         key = (host, port, use_ssl)
         conn = self.idle.pop(key, None)
         if conn is None:
-            conn = FakeConnection((host, port), take=self._take)
+            # the real pool resolves the host name first; Connection wants a numerical address
+            conn = FakeConnection(('127.0.0.1', port), take=self._take)
         conn.armed = True
         conn.pool_key = key
         return conn
@@ -183,7 +189,7 @@ class FTPPool:
         if not self._ctrl_given:
             self._ctrl_given = True
             return self.ctrl
-        return FakeConnection((host, port), preload=list(self._data_segments))
+        return FakeConnection(('127.0.0.1', port), preload=list(self._data_segments))
 
     def no_wait_release(self, connection):
         pass
@@ -248,6 +254,12 @@ def run_http(case, loop):
         session = web.session(request)
         with session:
             while not session.done():
+                if session.next_request().url_info.scheme not in ('http', 'https'):
+                    # WebProcessorSession._process_loop consults the URL filters before every hop; the scheme
+                    # filter (http / https / ftp) skips such a redirect target, and the web client is never
+                    # asked to open a connection for a URL without host and port
+                    state['extra']['skipped'] = session.next_request().url_info.scheme
+                    break
                 state['extra']['n'] += 1
                 state['stage'] = 'start'
                 response = yield from session.start()
@@ -334,8 +346,23 @@ def demux():
     return _SCRAPERS['d']
 
 
+class _Count(logging.Handler):
+    def __init__(self):
+        super().__init__(logging.WARNING)
+        self.n = 0
+
+    def emit(self, record):
+        self.n += 1
+
+
+_COUNT = _Count()
+logging.getLogger('wpull').addHandler(_COUNT)
+logging.getLogger('wpull').propagate = False
+
+
 def run_scrape(case, loop):
     state = {'stage': 'scrape', 'extra': {}}
+    _COUNT.n = 0
     try:
         request = Request(case['url'])
         response = Response(status_code=case.get('status', 200), reason='OK', version='HTTP/1.1')
@@ -352,6 +379,7 @@ def run_scrape(case, loop):
             if res:
                 n += len(res.link_contexts)
         state['extra']['links'] = n
+        state['extra']['caught'] = _COUNT.n       # "Failed to read document" warnings: an inner handler fired
         state['stage'] = 'done'
         return outcome(None, 'done', state['extra'])
     except (KeyboardInterrupt, SystemExit):
@@ -372,8 +400,10 @@ def main():
         loop = harness.compat.new_loop()
         res = []
         for case in req['cases']:
+            t0 = time.time()
             r = RUNNERS[case['kind']](case, loop)
             r['kind'] = case['kind']
+            r['ms'] = int(1000 * (time.time() - t0))
             res.append(r)
         loop.close()
     finally:
